@@ -63,6 +63,11 @@ fn main() {
             inst::cleanup_scratch();
             c
         }
+        "golden-make" => {
+            props::c02::golden_make();
+            inst::cleanup_scratch();
+            0
+        }
         // print the generated case for a seed (debugging aid)
         "case" => {
             let p = find(&args[2]);
